@@ -14,6 +14,11 @@ def chk(pid, text, note, design, technique='deductive verification: ast->VC gene
     }
 
 CHECKS = [
+    chk("C13", "Contract on the real Transformer._create_const: typing clauses and the unsigned-wrap range clause are "
+        "integer/string VCs discharged for all symbols; counter-models are replayed natively.",
+        "Trusted: givc, schema, assumed contracts for _strip_symbol/_create_type_from_base/_resolve_type_from_ctype/"
+        "lookup_giname/resolve_aliases, str(int) as injective UF. Enum member creation and emission not yet under contract. "
+        "One known finding (platform-width unsigned types are not wrapped).", "DESIGN.md section 4 C13"),
     chk("C02", "Function contracts on the real transfer-default functions of maintransformer.py; every obligation is "
         "discharged by z3 for all field valuations.",
         "Trusted: givc VC generator, class schema, Transformer lookups as uninterpreted functions. "
